@@ -16,7 +16,7 @@ def _nontrivial(t):
 def run(tier):
     rnd = random.Random(common.seed() + 20)
     n = 160 if tier == 'quick' else 3000
-    jobs = ec.random_jobs(rnd, n, label='hb', gen_kw=dict(p_items=0.25, p_cmd=0.03, p_retry=0.1))
+    jobs = ec.random_jobs(rnd, n, label='hb', gen_kw=dict(partial_joins=False, p_items=0.25, p_cmd=0.03, p_retry=0.1))
     for k, j in enumerate(jobs):
         names = list(j['prog'].order)
         rnd.shuffle(names)
